@@ -8,6 +8,7 @@ import (
 	"fmt"
 	"net/http"
 	"net/url"
+	"path"
 	"strings"
 )
 
@@ -32,6 +33,7 @@ func rawRequest(w *World, op Op) {
 	if err != nil {
 		up = rq.Path
 	}
+	up = path.Clean("/" + up)
 	el := strings.Split(strings.Trim(up, "/"), "/")
 	for i := 2; i <= len(el); i++ {
 		cand := strings.Join(el[1:i], "/")
@@ -48,6 +50,12 @@ func rawRequest(w *World, op Op) {
 		return
 	}
 	w.x.mix(uint64(r.Code))
+	if op.S == "reserved" && w.k.Store == "dir" {
+		// the directory store cannot hold repositories named like layout entries
+		if r.Code != 400 || (rq.Method == "GET" && !hasCode(w.errCodes(r), "NAME_INVALID")) {
+			w.x.viol([]string{"C15", "C16"}, "req.error-code", "reserved name: not 400 NAME_INVALID", fmt.Sprintf("%s %s answered %d %v", rq.Method, rq.Path, r.Code, w.errCodes(r)))
+		}
+	}
 	// a path whose repository part is not in the OCI grammar must not be routed: 404 and no store access
 	if repoPart, ok := repoPartOf(up); ok && !reRepo.MatchString(repoPart) {
 		if r.Code != 404 && r.Code != 400 && r.Code != 405 && r.Code != 301 {
